@@ -3,6 +3,7 @@ import HecsModel.Model.Proto
 import HecsModel.Spec.World
 import HecsModel.Model.QueryJudge
 import HecsModel.Model.Prepared
+import HecsModel.Model.Tracker
 /-
   Judge for engine `world`: replays a trace line on the model and renders the model's answer in the
   harness' canonical format.  The comparison itself is a string equality done by the driver.
@@ -25,12 +26,19 @@ def showRes : Res → String
   | .ents es => "es=" ++ showEntities es
   | .vals vs => "vals=" ++ showComps vs
 
-def showOut (o : Out) : String := showRes o.res ++ " d=" ++ showComps (sortComps o.dropped)
+/-- types that take part in the drop ledger: the tracked value type (10) and hidden snapshot
+components (≥ 100) have no `Drop` instrumentation -/
+def ledgerType (t : Nat) : Bool := t < 10
+
+def showOut (o : Out) : String :=
+  showRes o.res ++ " d=" ++ showComps (sortComps (o.dropped.filter (fun c => ledgerType c.1)))
+
+def visible (cs : List Comp) : List Comp := cs.filter (fun c => c.1 < 100)
 
 /-! observables of the model world -/
 
 def liveList (w : World) : List (Entity × List Comp) :=
-  w.archs.toList.flatMap (fun ar => ar.rows.toList.map (fun r => (⟨r.id, w.genOf r.id⟩, sortComps r.vals)))
+  w.archs.toList.flatMap (fun ar => ar.rows.toList.map (fun r => (⟨r.id, w.genOf r.id⟩, sortComps (visible r.vals))))
 
 def obsIter (w : World) : String :=
   let l := sortBy (fun a b => entLt a.1 b.1) (liveList w)
@@ -48,14 +56,58 @@ def obsHandle (w : World) (h : Entity) : String :=
   let e := match w.get h with
     | none => "x"
     | some none => "[]"
-    | some (some (a, i)) => showComps (sortComps (((w.rowAt a i).map (·.vals)).getD []))
+    | some (some (a, i)) => showComps (sortComps (visible (((w.rowAt a i).map (·.vals)).getD [])))
   c ++ "/" ++ e
 
 def obs (w : World) (hs : List Entity) : String :=
   s!"len={w.len} iter={obsIter w} arch={obsArch w} ag={w.archs.size} hs=" ++ showList (obsHandle w) hs
 
 /-- all values still stored (what dropping the world drops) -/
-def allVals (w : World) : List Comp := w.archs.toList.flatMap (fun ar => ar.rows.toList.flatMap (·.vals))
+def allVals (w : World) : List Comp :=
+  (w.archs.toList.flatMap (fun ar => ar.rows.toList.flatMap (·.vals))).filter (fun c => ledgerType c.1)
+
+def stripArch (s : String) : String :=
+  " ".intercalate ((s.splitOn " ").filter (fun t => !(t.startsWith "arch=") && !(t.startsWith "ag=")))
+
+/-! tracker lines: `track W reads=[added,changed~,removed]` -/
+
+def parseReads (s : String) : List Tracker.Read :=
+  let inner := ((s.drop 1).toString.dropEnd 1).toString
+  if inner == "" then [] else
+  (inner.splitOn ",").filterMap (fun r =>
+    let part := r.endsWith "~"
+    let name := if part then (r.dropEnd 1).toString else r
+    match name with
+    | "added" => some (.added part)
+    | "changed" => some (.changed part)
+    | "removed" => some (.removed part)
+    | _ => none)
+
+def showEV (l : List (Entity × Nat)) : String :=
+  let l := sortBy (fun a b => entLt a.1 b.1) l
+  "[" ++ ";".intercalate (l.map (fun p => showEntity p.1 ++ "=" ++ toString p.2)) ++ "]"
+
+def showEVV (l : List (Entity × Nat × Nat)) : String :=
+  let l := sortBy (fun a b => entLt a.1 b.1) l
+  "[" ++ ";".intercalate (l.map (fun p => showEntity p.1 ++ "=" ++ toString p.2.1 ++ ">" ++ toString p.2.2)) ++ "]"
+
+/-- rendering of the reports for the reads that were performed (`~n` = abandoned after n items) -/
+def showReports (reads : List Tracker.Read) (added : List (Entity × Nat)) (changed : List (Entity × Nat × Nat))
+    (removed : List (Entity × Nat)) : String :=
+  let part (k : Nat) := s!"~{min k 1}"
+  let a := match reads.find? (fun r => match r with | .added _ => true | _ => false) with
+    | some (.added true) => part added.length
+    | some _ => showEV added
+    | none => "-"
+  let c := match reads.find? (fun r => match r with | .changed _ => true | _ => false) with
+    | some (.changed true) => part changed.length
+    | some _ => showEVV changed
+    | none => "-"
+  let r := match reads.find? (fun r => match r with | .removed _ => true | _ => false) with
+    | some (.removed true) => part removed.length
+    | some _ => showEV removed
+    | none => "-"
+  s!"added={a} changed={c} removed={r}"
 
 /-! decoding a trace line into a model step -/
 
@@ -168,6 +220,26 @@ def specLine (ss : Specs) (lhs rhs : String) : Except String Specs :=
               .error s!"archetypes_generation {g} was returned for two different sets of archetypes"
             else .ok (setS ss n { s with gens := if s.gens.any (fun p => p.1 == g) then s.gens else (g, sets) :: s.gens })
       | none => .error "bad obs"
+    | "tobs" =>
+      match (field args "hs").bind entities? with
+      | some hs =>
+        let want := stripArch (specObs s hs)
+        if stripArch (dropEmptyArchs rhs.trimAscii.toString) == want then .ok ss
+        else .error s!"observable state differs from the abstract map: spec={want}"
+      | none => .error "bad tobs"
+    | "track" =>
+      -- C18: the reports are the difference between the previous snapshot and the current state
+      let reads := parseReads ((field args "reads").getD "[]")
+      let cur := Tracker.snapshot s.live 10
+      let added := Tracker.specAdded s.tprev cur
+      let changed := Tracker.specChanged s.tprev cur
+      let removed := Tracker.specRemoved s.tprev cur (s.live.map (·.1))
+      let want := showReports reads added changed removed
+      if rhs.trimAscii.toString != want then .error s!"reports differ from the difference of consecutive snapshots: spec={want}"
+      else
+        -- insert_one/remove_one run (and flush reservations) only when something was added or removed
+        let s' := if added.isEmpty && removed.isEmpty then s else s.flush
+        .ok (setS ss n { s' with tprev := cur })
     | "contains" =>
       match (field args "h").bind entity? with
       | some h =>
@@ -210,7 +282,13 @@ def specLine (ss : Specs) (lhs rhs : String) : Except String Specs :=
       match parseOp verb args, parseRhs rhs with
       | some op, some (res, d) =>
         match Spec.apply s op res d with
-        | .ok s' => .ok (setS ss n s')
+        | .ok s' =>
+          -- the hidden snapshot component dies with its entity (C18 ghost)
+          let gone : List Nat := match op with
+            | .spawnAt h _ => [h.id]
+            | .spawnColumnBatchAt hs _ _ => hs.map (·.id)
+            | _ => []
+          .ok (setS ss n { s' with tprev := s'.tprev.filter (fun p => s'.isLive p.1 && !gone.contains p.1.id) })
         | .error m => .error m
       | _, _ => .error s!"cannot parse: {lhs} => {rhs}"
   | _ => .error "bad line"
@@ -263,6 +341,15 @@ def stepLineW (ws : Worlds) (lhs : String) : Except String (Worlds × String) :=
           | some h => .ok (ws, if w.contains h then "c=1" else "c=0")
           | none => .error "bad contains"
         | "yields" => .ok (ws, "ok")
+        | "tobs" =>
+          match (field args "hs").bind entities? with
+          | some hs => .ok (ws, stripArch (obs w hs))
+          | none => .error "bad tobs"
+        | "track" =>
+          let reads := parseReads ((field args "reads").getD "[]")
+          -- the last read of each kind determines what the caller saw; every read acts on the state
+          let (w', rep) := Tracker.track 10 110 w reads
+          .ok (setW ws n w', showReports reads (rep.added.getD []) (rep.changed.getD []) (rep.removed.getD []))
         | "query" =>
           match (field args "q").bind QueryJudge.parseShape, field args "path" with
           | some q, some path =>
@@ -276,7 +363,7 @@ def stepLineW (ws : Worlds) (lhs : String) : Except String (Worlds × String) :=
             match w.take h with
             | (w', none) => .ok (setW ws n w', "nosuch d=[]")
             | (w', some vals) =>
-              if into == "-" then .ok (setW ws n w', "ok d=" ++ showComps (sortComps vals))
+              if into == "-" then .ok (setW ws n w', "ok d=" ++ showComps (sortComps (vals.filter (fun c => ledgerType c.1))))
               else match getW ws into with
                 | none => .error s!"unknown world {into}"
                 | some v =>
